@@ -101,8 +101,10 @@ def run(text, opts=(), *, input_name="in.pdb", files=None, out_name="out.pqr",
         o = str(o)
         for k, v in paths.items():
             o = o.replace(k, v)
-        if o.startswith("@out:"):
-            o = str(d / o[5:])
+        if "@out:" in o:
+            # "@out:NAME" (alone or after "--option=") -> path in scratch dir
+            head, _, name = o.partition("@out:")
+            o = head + str(d / name)
         argv.append(o)
     argv += [str(inp), str(out)]
     res.argv = argv
